@@ -72,7 +72,7 @@ def genuine(xs, i):
     return ok
 
 
-def ob_zc(n, step_samples, timeout):
+def ob_zc(n, step_samples, timeout, RATE=RATE):
     names = ["k"] + ["x%d" % i for i in range(n)]
 
     def pre(k, *xs):
@@ -80,7 +80,7 @@ def ob_zc(n, step_samples, timeout):
 
     def body(k, *xs):
         xs = list(xs)
-        w = SymWav(xs)
+        w = SymWav(xs, RATE)
         try:
             t = w.findNearestZeroCrossing(k / RATE, step_samples / RATE)
         except errors.FindZeroCrossingError:
@@ -96,7 +96,7 @@ def ob_zc(n, step_samples, timeout):
             return "result not on a sample position although the target is"
         return True if genuine(xs, int(i)) else "result is not a zero or a sign change"
 
-    return Ob("zerocrossing-n%d-step%d" % (n, step_samples), I(*names), body, pre, fmode="real", timeout=timeout, funcs=FUNCS[:3], bounds="%d symbolic samples in [-2,2], target on any sample position 0..%d, timeStep %d samples" % (n, n, step_samples),
+    return Ob("zerocrossing-n%d-step%d%s" % (n, step_samples, "" if RATE == 8 else "-rate%d" % RATE), I(*names), body, pre, fmode="real", timeout=timeout, funcs=FUNCS[:3], bounds="%d symbolic samples in [-2,2], target on any sample position 0..%d, timeStep %d samples, frame rate %d" % (n, n, step_samples, RATE),
               canaries=[{"target": "praatio.audio:_findNextZeroCrossing", "find": "return startTime + zeroI / float(frameRate)", "replace": "return startTime + (zeroI + 1) / float(frameRate)"}] if (n, step_samples) == (4, 2) else [])
 
 
@@ -230,12 +230,16 @@ def ob_tg_zc_flags(timeout):
     return Ob("tg-to-zerocrossings-flags", I("a", "b", "p", "fp", "fi"), body, pre, fmode="real", timeout=timeout, funcs=FUNCS[3:4], bounds="3 tiers, all four flag combinations, on-grid times")
 
 
-def ob_splice(align, with_stop, timeout):
+def _contains(big, small):
+    return any(big[i : i + len(small)] == small for i in range(len(big) - len(small) + 1))
+
+
+def ob_splice(align, with_stop, timeout, fixed=None):
     rate = 1000
     n = len(AUD)
 
     def pre(k, j, a, b):
-        return 0 <= k <= n and k <= j <= n and 0 <= a < b <= n and (not with_stop or k < j)
+        return 0 <= k <= n and k <= j <= n and 0 <= a < b <= n and (not with_stop or k < j) and (fixed is None or (a, b) == fixed)
 
     def body(k, j, a, b):
         wav = _wav(AUD, rate)
@@ -266,6 +270,14 @@ def ob_splice(align, with_stop, timeout):
             dd = (new[0][1] - new[0][0]) - ins_len
             if dd > one + 1e-9 or dd < -one - 1e-9:
                 return "new interval does not cover the inserted audio"
+        # the audio under the new interval is the spliced segment
+        got = list(_struct.unpack("<" + "h" * (len(na.frames) // 2), na.frames))
+        i0, i1 = round(new[0][0] * rate), round(new[0][1] * rate)
+        seg = got[i0:i1]
+        if not align and seg != SPL:
+            return "the audio under the new interval is not the spliced segment"
+        if align and (len(seg) == 0 or not _contains(SPL, seg)):
+            return "the audio under the new interval is not a stretch of the spliced segment"
         ws = ntg.getTier("words").entries
         if [e[2] for e in ws] != ["w"] and not with_stop:
             return "labels of other entries changed"
@@ -277,7 +289,7 @@ def ob_splice(align, with_stop, timeout):
                 return "tier span differs from the textgrid span"
         return True
 
-    return Ob("splice-%s-%s" % ("align" if align else "noalign", "replace" if with_stop else "insert"), I("k", "j", "a", "b"), body, pre, fmode="real", timeout=timeout, funcs=FUNCS[4:5] + FUNCS[:1], bounds="12-sample audio, 8-sample splice at 1 kHz; insertion point / replaced region / one interval on any sample positions")
+    return Ob("splice-%s-%s%s" % ("align" if align else "noalign", "replace" if with_stop else "insert", "" if fixed is None else "-iv%d-%d" % fixed), I("k", "j", "a", "b"), body, pre, fmode="real", timeout=timeout, funcs=FUNCS[4:5] + FUNCS[:1], bounds="12-sample audio, 8-sample splice at 1 kHz; insertion point / replaced region on any sample positions; one interval %s" % ("on any sample positions" if fixed is None else "at samples %d..%d" % fixed))
 
 
 def obligations(tier):
@@ -286,13 +298,17 @@ def obligations(tier):
         obs.append(ob_zc(4, 2, 300))
         obs.append(ob_zc(5, 3, 300))
         obs.append(ob_zc(3, 1, 60))
+        obs.append(ob_zc(4, 2, 300, RATE=32))  # 1/32 s has five decimals
         obs.append(ob_zc_nocrossing(6, 2, 300))
         obs.append(ob_tg_zc("mixed", 300))
         obs.append(ob_tg_zc_flags(300))
         obs.append(ob_zc_after_insert(300))
         obs.append(ob_splice(False, False, 300))
         obs.append(ob_splice(True, False, 300))
+        obs.append(ob_splice(False, True, 300, fixed=(3, 8)))
+        obs.append(ob_splice(True, True, 300, fixed=(3, 8)))
     else:
+        obs.append(ob_zc(5, 3, 2400, RATE=32))
         for n in (3, 4, 5, 6):
             for st in (1, 2, 3, 4):
                 obs.append(ob_zc(n, st, 2400))
